@@ -613,7 +613,12 @@ func ruleLIT1(c *Ctx) {
 			return
 		}
 		var probs []string
-		if f, _ := FieldSel(p, call.Args[0]); f == nil || f.Name() != "tokenLit" {
+		src := call.Args[0]
+		// (the text may have been read into a local first: `lit := p.tokenLit`)
+		if d := singleDef(p, funcDeclAt(p, call.Pos()), src); d != nil {
+			src = d
+		}
+		if f, _ := FieldSel(p, src); f == nil || f.Name() != "tokenLit" {
 			probs = append(probs, "converts "+w.Src(call.Args[0])+" instead of the token's literal text")
 		}
 		for i, a := range args {
